@@ -68,11 +68,12 @@ class Call:
 
 
 class LisCall:
-    __slots__ = ('kind', 'item', 'thread', 'origin', 'b', 'e', 'within', 'tag')
+    __slots__ = ('kind', 'item', 'thread', 'origin', 'b', 'e', 'within', 'tag', 'payload')
 
     def __init__(self, kind, item, thread, origin, b, within, tag):
         self.kind, self.item, self.thread, self.origin, self.b, self.within, self.tag = kind, item, thread, origin, b, within, tag
         self.e = None
+        self.payload = None
 
 
 def make_adapter(S, sc, log):
@@ -134,9 +135,11 @@ def do_listener(S, ad, log, kind, item, origin, within=None):
     log['lis'].append(lc)
     if kind == 'upd':
         n = log.get('sizes', {}).get(len(log['lis']) - 1)
-        listener.update(item, {'k': tag if not n else tag + ':' + 'x' * n}, False)
+        lc.payload = tag if not n else tag + ':' + 'x' * n
+        listener.update(item, {'k': lc.payload}, False)
     elif kind == 'fal':
-        listener.failure(Exception('failure ' + tag))
+        lc.payload = 'failure ' + tag
+        listener.failure(Exception(lc.payload))
     elif kind == 'eos':
         listener.end_of_snapshot(item)
     else:
@@ -148,7 +151,8 @@ class Run:
     pass
 
 
-FINE_FILES = ('lightstreamer_adapter/server.py', 'lightstreamer_adapter/subscription.py')
+FINE_FILES = ('lightstreamer_adapter/server.py', 'lightstreamer_adapter/subscription.py', 'lightstreamer_adapter/protocol.py',
+              'lightstreamer_adapter/data_protocol.py', 'lightstreamer_adapter/metadata_protocol.py')
 
 
 def run_scenario(sc, chooser, eager=('writer',), max_steps=6000, probe=True, fine=False, fine_seed=0):
@@ -827,12 +831,11 @@ def oracle_c16(r, F):
     # producer level: what a thread submitted through the listener API is what was enqueued for it — the line enqueued
     # during an update / failure call carries THAT call's payload (not lost, not replaced by another thread's, not doubled)
     def carries(line, lc):
-        toks = line.split('|')
-        if lc.kind == 'upd':
-            return any(t == lc.tag or t.startswith(lc.tag + '%3A') for t in toks)
-        return any(t == 'failure+' + lc.tag for t in toks)
+        # the WHOLE payload of that call, as one token
+        import urllib.parse
+        return urllib.parse.quote_plus(lc.payload) in line.split('|')
     for lc in r.lis:
-        if lc.kind not in ('upd', 'fal') or lc.e is None:
+        if lc.kind not in ('upd', 'fal') or lc.e is None or lc.payload is None:
             continue
         mine = [p for p in puts if p[1] == lc.thread and lc.b <= p[0] <= lc.e]
         if len(mine) > 1:
